@@ -191,6 +191,9 @@ type typechecker struct {
 // usingCheck contains information about the type checking of a 'using'
 // statement.
 type usingCheck struct {
+	// checking reports whether the 'using' statement is being checked; it is
+	// finalized by the file that contains it, not by a file that it renders.
+	checking bool
 	// used reports whether the 'itea' identifier is used.
 	used bool
 	// toBeEmitted reports whether the declaration of the 'itea' identifier
